@@ -97,7 +97,21 @@ fn normalise(s: &AllocatorSnapshot) -> NormSnapshot {
     }
 }
 
+/// What a run has done so far, shared with the thread that waits for it: if the allocator
+/// never returns (endless loop) the waiting side still knows the operations and findings.
+#[derive(Default)]
+pub struct Progress {
+    pub desc: Option<Desc>,
+    pub ops: Vec<Op>,
+    pub findings: Vec<Finding>,
+    /// the call into repository code that is being executed
+    pub phase: &'static str,
+}
+
+pub type ProgressRef = std::sync::Arc<std::sync::Mutex<Progress>>;
+
 pub struct Runner<'a> {
+    pub progress: Option<ProgressRef>,
     pub desc: &'a Desc,
     alloc: SimAllocator,
     live: BTreeMap<u32, Live>,
@@ -175,6 +189,7 @@ impl<'a> Runner<'a> {
             .map(|(_, k)| k.universe().into_iter().collect())
             .collect();
         let mut r = Runner {
+            progress: None,
             desc,
             alloc,
             live: BTreeMap::new(),
@@ -198,6 +213,12 @@ impl<'a> Runner<'a> {
 
     pub fn live_ids(&self) -> Vec<u32> {
         self.live.keys().copied().collect()
+    }
+
+    fn phase(&self, phase: &'static str) {
+        if let Some(p) = &self.progress {
+            p.lock().unwrap().phase = phase;
+        }
     }
 
     fn talking(&self) -> bool {
@@ -830,6 +851,13 @@ impl<'a> Runner<'a> {
         if self.aborted {
             return;
         }
+        if let Some(p) = &self.progress {
+            let mut p = p.lock().unwrap();
+            p.ops.push(op.clone());
+            let known = p.findings.len();
+            p.findings.extend(self.findings[known..].iter().cloned());
+            p.phase = "harness";
+        }
         if self.talking() {
             self.say(format!("[{}] {}", self.op_index, describe_op(op)));
         }
@@ -894,10 +922,12 @@ impl<'a> Runner<'a> {
             Ok(r) => r,
             Err(p) => return self.panicked(p, "make_request"),
         };
+        self.phase("is_enabled");
         let enabled = match catch(|| self.alloc.is_enabled(&rq)) {
             Ok(e) => e,
             Err(p) => return self.panicked(p, "is_enabled"),
         };
+        self.phase("harness");
         self.history_hash = mix(&[self.history_hash, hash_entries(entries), enabled as u64, do_grant as u64]);
         if !do_grant {
             self.count("probes");
@@ -908,10 +938,12 @@ impl<'a> Runner<'a> {
             self.judge(entries, &free, &rr, enabled, "admission test", &state);
             return;
         }
+        self.phase("try_allocate");
         let result = match catch(|| self.alloc.try_allocate(&rq)) {
             Ok(r) => r,
             Err(p) => return self.panicked(p, "try_allocate"),
         };
+        self.phase("harness");
         if self.talking() {
             self.say(format!(
                 "    state {state}; is_enabled = {enabled}; try_allocate = {}; reference: {}",
@@ -965,9 +997,11 @@ impl<'a> Runner<'a> {
         // grant-then-release restores the snapshot; the same state gives the same answer
         self.count("bounces");
         let live = self.live.remove(&id).unwrap();
+        self.phase("release_allocation");
         if let Err(p) = catch(|| self.alloc.release_allocation(live.allocation)) {
             return self.panicked(p, "release_allocation");
         }
+        self.phase("harness");
         let back = match catch(|| self.alloc.snapshot()) {
             Ok(s) => s,
             Err(p) => return self.panicked(p, "snapshot"),
@@ -981,10 +1015,12 @@ impl<'a> Runner<'a> {
                 format!("grant #{id} ({}) -> {} then release: before {:?}, after {:?}", describe_entries(entries), describe_held(self.desc, &live.held), normalise(&pre), normalise(&back)),
             );
         }
+        self.phase("try_allocate");
         let again = match catch(|| self.alloc.try_allocate(&rq)) {
             Ok(r) => r,
             Err(p) => return self.panicked(p, "try_allocate"),
         };
+        self.phase("harness");
         let Some(allocation) = again else {
             self.find("C16", "admission-not-a-function-of-the-free-state", "", format!("({}) was granted in free state {state}, released, and then refused in the same free state", describe_entries(entries)));
             return;
@@ -1007,9 +1043,11 @@ impl<'a> Runner<'a> {
         self.count("releases");
         self.history_hash = mix(&[self.history_hash, 0x5E1EA5E, grant as u64]);
         let _ = &live.entries;
+        self.phase("release_allocation");
         if let Err(p) = catch(|| self.alloc.release_allocation(live.allocation)) {
             return self.panicked(p, "release_allocation");
         }
+        self.phase("harness");
         let post = match catch(|| self.alloc.snapshot()) {
             Ok(s) => s,
             Err(p) => return self.panicked(p, "snapshot"),
